@@ -257,7 +257,9 @@ def main(prop, tier):
         return tlc("MCChannelConc", wcfg, bdir, workers=4, timeout=600, simulate=(150 if thorough else 40), depth=depth,
                    coverage=False, seed_=sd, heap="4g")
 
+    import apalache_obl
     with cf.ThreadPoolExecutor(max_workers=6) as ex:
+        f_ap = ex.submit(apalache_obl.discharge, chk, bdir, "sync", thorough)
         f_t = [ex.submit(run_tlc, j) for j in jobs]
         f_w = ex.submit(run_walks, 0)
         # ---- (3) random / PCT / starvation runs meanwhile ----------------------------------------------
@@ -276,6 +278,7 @@ def main(prop, tier):
             raise Broken("chan_conc exited abnormally (rc=%s) on %s: %s" % (broken[0][1], broken[0][0], broken[0][2][-500:]))
         tlc_res = [f.result() for f in f_t]
         wres = f_w.result()
+        f_ap.result()
 
     states = transitions = 0
     for what, r in tlc_res:
